@@ -62,7 +62,8 @@ class Session:
         self.gen_seconds = 0.0
         self.solve_seconds = 0.0
 
-    def generate(self) -> None:
+    def generate(self, only: Any = None) -> None:
+        """only: if given, VCs are generated for these functions alone (the others contribute their contracts only)"""
         t0 = time.time()
         V, side = self.V, self.side
         if getattr(side, "USES_DATETIME", False):
@@ -100,6 +101,10 @@ class Session:
                     if any(u.startswith(item + ":") for u in self.undecided):
                         continue
                     n0 = len(V.vcs)
+                    if only is not None and item not in only:
+                        if contracts[item].pure:
+                            V.add_pure_axiom(contracts[item])
+                        continue
                     try:
                         self.func_info.append(V.verify_function(self.file_of[item], contracts[item]))
                     except (ContractError, Unsupported) as e:
